@@ -46,6 +46,7 @@ type replayDriver struct {
 	Clock   bool              `json:"clock"`   // overlay core/timex/relativetime.go with the virtual clock
 	Values  map[string]string `json:"values"`  // ENV name -> term pattern (see termFor)
 	Timeout int               `json:"timeout_s"`
+	Extra   map[string]string `json:"extra"` // further overlay files: path relative to the repo root -> file under /verif/replay/
 	// a driver can also stand in as a BOUNDED check of functions the contracts do not reach (never counted as proved):
 	BoundedFor string `json:"bounded_for"` // property id: the driver is run on every check of that property
 	Covers     string `json:"covers"`      // the functions it stands in for
@@ -59,6 +60,7 @@ type BoundedResult struct {
 	Bound  string  `json:"bound"`
 	Cmd    string  `json:"cmd"`
 	Passed bool    `json:"passed"`
+	Known  bool    `json:"known_finding"`
 	Stats  string  `json:"stats"`
 	WallS  float64 `json:"wall_s"`
 	replay *ReplayResult
@@ -343,6 +345,9 @@ func runDriver(repo, verif string, d *replayDriver, env map[string]string, tmp s
 	}
 	ov := map[string]map[string]string{"Replace": {}}
 	ov["Replace"][filepath.Join(repo, d.PkgDir, "zz_gzv_replay_test.go")] = filepath.Join(verif, "replay", d.File)
+	for rel, f := range d.Extra {
+		ov["Replace"][filepath.Join(repo, rel)] = filepath.Join(verif, "replay", f)
+	}
 	if d.Clock {
 		clk := filepath.Join(tmp, "virtualclock.go")
 		os.WriteFile(clk, []byte(virtualClockSrc), 0o644)
